@@ -273,6 +273,20 @@ def bound_proxy_phase(env, rec, r):
             for _, q in peers:
                 q._pyroRelease()
             p._pyroRelease()
+            # ... and a proxy that is merely connected (a method was called on it, it was not bound): it still holds the name it was made
+            # from, and so does every copy of it that travels
+            p2 = env.Proxy(text)
+            if p2.ping() != "pong":
+                rec.violation("bound-proxy-wrong-object", "proxy for %r does not reach its object" % text, None)
+                return
+            import copy as _copy
+            travelled = [(sname + " round trip", ser.loads(ser.dumps(p2))) for sname, ser in env.sers.items()] + [("copy.copy", _copy.copy(p2))]
+            for label, q in travelled:
+                if norm(q._pyroUri) != norm(env.URI(text)) or not (q == p2) or hash(q) != hash(p2):
+                    rec.violation("proxy-designates-other-object", "a connected proxy made from %r: its %s holds %s (equal to the original: %s)" % (text, label, q._pyroUri, q == p2), None)
+                    return
+                q._pyroRelease()
+            p2._pyroRelease()
             rec.count("bound_proxies_checked")
     finally:
         nsd.shutdown()
